@@ -1,19 +1,23 @@
 #!/bin/bash
-# re-test every kept seed against the current tree; writes seeded/RESULTS.md.  VERIF_DIR=<clone> runs the checks in that clone
-# (against the tree named in its .verif_repo) so that /repo and /verif stay untouched; see tools/seed_test.sh.
+# re-test kept seeds against the current tree; results are cached per seed in seeded/.results.tsv and seeded/RESULTS.md is
+# regenerated from the cache. ONLY="C04 C05" restricts to those properties, SKIP="…" leaves some out.
+# VERIF_DIR=<clone> runs the checks in that clone (against the tree named in its .verif_repo) so /repo and /verif stay untouched.
 cd /verif
 V=${VERIF_DIR:-/verif}; R=$(cat $V/.verif_repo 2>/dev/null || echo /repo)
-T=$(mktemp)
-echo "Every kept seeded change re-applied to the code tree ($(git -C $R rev-parse --short HEAD), $(date -u +%Y-%m-%dT%H:%MZ)) and the quick check of its property run (tools/seed_all.sh → tools/seed_test.sh)." > $T
-echo >> $T; echo "| seed | property | result |" >> $T; echo "|---|---|---|" >> $T
+touch seeded/.results.tsv
 for d in seeded/*/; do
   s=$(basename $d); id=$(python3 -c "import json;print(json.load(open('$d/meta.json'))['property'])")
-  if [ -n "$SKIP" ] && echo " $SKIP " | grep -q " $id "; then echo "| $s | $id | skipped |" | tee -a $T; continue; fi
+  if [ -n "$SKIP" ] && echo " $SKIP " | grep -q " $id "; then continue; fi
+  if [ -n "$ONLY" ] && ! echo " $ONLY " | grep -q " $id "; then continue; fi
   out=$(tools/seed_test.sh $d/patch.diff $id 2>&1)
   if echo "$out" | grep -q "patch does not apply"; then r="PATCH DOES NOT APPLY (needs rebase)";
   elif echo "$out" | grep -q "^VIOLATION.*no-failing-input-found" && ! echo "$out" | grep "^VIOLATION" | grep -qv "no-failing-input-found"; then r="VIOLATION no-failing-input-found";
   elif echo "$out" | grep -q "^VIOLATION"; then r="VIOLATION with replay";
   else r="MISSED (exit 0)"; fi
-  echo "| $s | $id | $r |" | tee -a $T
+  grep -v "^$s	" seeded/.results.tsv > seeded/.results.tmp; mv seeded/.results.tmp seeded/.results.tsv
+  printf "%s\t%s\t%s\t%s\t%s\n" "$s" "$id" "$r" "$(git -C $R rev-parse --short HEAD)" "$(date -u +%Y-%m-%dT%H:%MZ)" >> seeded/.results.tsv
+  echo "$s $id $r"
 done
-cp $T seeded/RESULTS.md; rm -f $T
+{ echo "Every kept seeded change re-applied to the code tree and the quick check of its property run (tools/seed_all.sh → tools/seed_test.sh)."; echo;
+  echo "| seed | property | result | tree | when |"; echo "|---|---|---|---|---|";
+  sort seeded/.results.tsv | awk -F'\t' '{print "| "$1" | "$2" | "$3" | "$4" | "$5" |"}'; } > seeded/RESULTS.md
